@@ -229,14 +229,14 @@ func runC03Share(_ *testing.T, c c03ShareCase) kit.Outcome {
 		Limit() int
 		BusyCount() int
 		IsLimitExceeded() bool
-		Acquire()
-		Release()
 	}
+	// (Acquire / Release are called by statement: whatever they return is not part of what is judged)
 	subjects := []struct {
-		name string
-		p    part
-		reg  *recRegistry
-	}{{"lookup", lp, regL}, {"predicate", pp, regP}}
+		name     string
+		p        part
+		reg      *recRegistry
+		acq, rel func()
+	}{{"lookup", lp, regL, func() { lp.Acquire() }, func() { lp.Release() }}, {"predicate", pp, regP, func() { pp.Acquire() }, func() { pp.Release() }}}
 	nt, updates, busy := false, 0, 0
 	want := -1 // unknown until the first update (the constructors' initial limit is the strategy's business)
 	for i, op := range c.Ops {
@@ -265,7 +265,7 @@ func runC03Share(_ *testing.T, c c03ShareCase) kit.Outcome {
 			case "update":
 				s.p.UpdateLimit(op.Total)
 			case "acquire":
-				s.p.Acquire()
+				s.acq()
 				got := s.reg.take()
 				// where the bin's in-flight sample is emitted (here or by the strategy) is not promised; one that is
 				// emitted here must be the bin's count after this grant, once
@@ -273,7 +273,7 @@ func runC03Share(_ *testing.T, c c03ShareCase) kit.Outcome {
 					return kit.Viol(s.name+":partition-inflight-sample", "op %d: Acquire on the partition object (busy now %d) emitted %+v, want at most one %s sample = %d", i, busy, got, core.MetricInFlight, busy)
 				}
 			case "release":
-				s.p.Release()
+				s.rel()
 			}
 			if got := s.p.BusyCount(); got != busy {
 				return kit.Viol(s.name+":partition-busy", "op %d %+v: BusyCount() = %d, want %d", i, op, got, busy)
